@@ -474,9 +474,18 @@ open Librfn.Spec.Console in
     blank are its tokens — the first three, and from the fourth word on the raw rest (O1) -/
 def UnquotedSimpleSplit : Prop :=
   ∀ (line tail : List Nat) (argv0 : List (Option Nat)),
-    (∀ b ∈ line, (printable b ∧ ¬ isQuote b) ∨ blank b) → (∀ b, line.head? = some b → ¬ blank b) → argv0.length = 4 →
-    let t := tokenizeMem (line ++ 0 :: tail) argv0 line.length
-    (tokensOf t line.length).take 3 = (splitBlanks line).take 3 ∧ t.argc = max 1 (min 4 (splitBlanks line).length)
+    line ≠ [] → (∀ b ∈ line, (printable b ∧ ¬ isQuote b) ∨ blank b) → (∀ b, line.head? = some b → ¬ blank b) →
+    argv0.length = 4 →
+    (tokensOf (tokenizeMem (line ++ 0 :: tail) argv0 line.length) line.length).take 3 = (splitBlanks line).take 3 ∧
+    (tokenizeMem (line ++ 0 :: tail) argv0 line.length).argc = min 4 (splitBlanks line).length
+
+open Librfn.Spec.Console in
+/-- the statement is satisfiable on a line outside the proved part: `ab  c d e f ` (five words, a
+    trailing blank) -/
+example : (tokensOf (tokenizeMem ([97, 98, 32, 32, 99, 32, 100, 32, 101, 32, 102, 32] ++ 0 :: [7]) [none, none, none, none] 12) 12).take 3
+      = (splitBlanks [97, 98, 32, 32, 99, 32, 100, 32, 101, 32, 102, 32]).take 3 ∧
+    (tokenizeMem ([97, 98, 32, 32, 99, 32, 100, 32, 101, 32, 102, 32] ++ 0 :: [7]) [none, none, none, none] 12).argc
+      = min 4 (splitBlanks [97, 98, 32, 32, 99, 32, 100, 32, 101, 32, 102, 32]).length := by decide
 
 open Librfn.Spec.Console in
 /-- **unquoted_simple_split_partial**: a line made of at most four words separated by blanks (no
